@@ -136,11 +136,18 @@ package fsm
 //@   ensures isnil(result1) ==> result0 != nil && fresh(result0) && result0.StakedAmount == stakeOf(addrOf(address)) && bytes(result0.Address) == addrOf(address)
 //@   ensures !isnil(result1) ==> result0 == nil
 //@   ensures[output] isnil(result1) ==> bytes(result0.Output) == valOutput(addrOf(address))
+// (the effect on the abstract stake view stays ASSUMED - it is written through SetValidator; the effect on the
+// per-committee tallies is CHECKED: the old record's contribution leaves, the new one's enters, for a delegate in the
+// delegated-only tallies as well - whichever path the function takes)
 //@ func (*StateMachine).UpdateValidatorStake
-//@   trusted
-//@   modifies ghost(stakeOf), ghost(stakeSum), ghost(supStaked), ghost(supDelegated), Validator.StakedAmount, Validator.Committees
-//@   ensures isnil(err) ==> stakeSum(s) == old(stakeSum(s)) + amountToAdd && stakeOf() == old(store(stakeOf(), bytes(val.Address), stakeOf(bytes(val.Address)) + amountToAdd))
-//@   ensures !isnil(err) ==> stakeSum(s) == old(stakeSum(s)) && stakeOf() == old(stakeOf())
+//@   modifies ghost(stakeOf), ghost(stakeSum), ghost(supStaked), ghost(supDelegated), ghost(supTotal), ghost(kvHas), ghost(valOutput), ghost(cStaked), ghost(cDelegated), Validator.StakedAmount, Validator.Committees, Supply.Staked, Supply.DelegatedOnly
+//@   ensures[total] supTotal(s) == old(supTotal(s))
+//@   assumed[stake] isnil(err) ==> stakeSum(s) == old(stakeSum(s)) + amountToAdd && stakeOf() == old(store(stakeOf(), bytes(val.Address), stakeOf(bytes(val.Address)) + amountToAdd))
+//@   assumed[failsafe] !isnil(err) ==> stakeSum(s) == old(stakeSum(s)) && stakeOf() == old(stakeOf())
+//@   assumed[markers] forall h int, a BSeq :: kvHas(unstakeKey(h, a)) == old(kvHas(unstakeKey(h, a))) && kvHas(pausedKey(h, a)) == old(kvHas(pausedKey(h, a)))
+//@   ensures[tally] isnil(err) ==> forall id int :: cStaked(id) == old(cStaked(id)) - old(contrib(val.Committees, len(val.Committees), id, val.StakedAmount)) + contrib(newCommittees, len(newCommittees), id, wrap64(old(val.StakedAmount) + amountToAdd))
+//@   ensures[delegated] isnil(err) && old(val.Delegate) ==> forall id int :: cDelegated(id) == old(cDelegated(id)) - old(contrib(val.Committees, len(val.Committees), id, val.StakedAmount)) + contrib(newCommittees, len(newCommittees), id, wrap64(old(val.StakedAmount) + amountToAdd))
+//@   ensures[notdelegated] isnil(err) && !old(val.Delegate) ==> cDelegated() == old(cDelegated())
 
 // a committee reward credits exactly the amount it reports, to exactly one balance or stake;
 // nothing is minted or burned here (the undistributed remainder is burned by the caller)
@@ -284,6 +291,16 @@ package fsm
 // part of the per-block slash budget of C14)
 //@   loop 4 iterensures[snapshotpertx] !isnil(currentStore) && preTxSlashTracker != nil ==> freshiter(preTxSlashTracker)
 //@   loop 4 iterensures[restored] !isnil(currentStore) && !isnil(e) ==> s.slashTracker == preTxSlashTracker && s.cache.valParams == nil && s.cache.feeParams == nil && (forall k uint64 :: !indom(s.cache.accounts, k)) && (forall k uint64 :: !indom(s.cache.pools, k)) && (s.events != nil ==> s.events.Events == nil)
+
+// ---- C04 / C06: applying one transaction --------------------------------------------------------------------------
+// The nonce of an Ethereum-wrapped (RLP.V2) sender is advanced AFTER fees and message have moved tokens: the account
+// object written back carries the balance currently recorded for its address, so the nonce write moves no tokens
+// (a copy taken before the fee deduction would resurrect the old balance). The result is filed under the hash of the
+// SUBMITTED bytes - the hash the de-duplicator and CheckReplay look transactions up by - not a hash recomputed from
+// the decoded content.
+//@ func (*StateMachine).ApplyTransaction
+//@   callsite SetAccount requires[noncewrite] callee.account != nil && callee.account.Amount == acctBal(bytes(callee.account.Address))
+//@   ensures[filedunder] isnil(result2) ==> result0 != nil && result0.TxHash == txHash
 
 // ---- C05: authorization -----------------------------------------------------------------------------------
 // an Ethereum-wrapped transaction is accepted only if the transaction re-derived from the signed RLP
@@ -761,8 +778,16 @@ package fsm
 // ---- C13: the shared historical validator cache holds committed heights only ----------------------------------
 // a historical view consults (and later fills) the shared cache only for a height strictly below the working
 // height: the list for the working height itself is still being built by the block in progress
+//@ func newStateMachine
+//@   ensures[own] isnil(result1) ==> result0 != nil && fresh(result0)
 //@ func (*StateMachine).TimeMachine
 //@   callsite RLock requires[pastonly] height < s.height
+//@   ensures[ownview] isnil(result1) && old(s.height) != 0 ==> result0 != nil && fresh(result0)
+// the committee of a height - the tip included - is derived by a state machine over a read-only view of the COMMITTED
+// state of that height, never by the working state machine itself (whose store holds the block in progress and whose
+// validator list may already be cached)
+//@ func (*StateMachine).LoadCommittee
+//@   callsite GetCommitteeMembers requires[committedview] old(s.height) != 0 ==> callee.s != old(s) && fresh(callee.s)
 
 // ---- C20: a settled liquidity deposit leaves the holding pool ---------------------------------------------------
 // in the distribution pass, every accepted deposit of a locally settled batch is taken out of the holding pool
@@ -859,3 +884,26 @@ package fsm
 //@   pure
 //@ func (*StateMachine).HandleReceiptsForOurLockedBatch
 //@   callsite GetPoolBalance requires[acknowledged] bytes(remoteBatch.ReceiptHash) == dexBatchHash(localBatch) && len(localBatch.Orders) == len(remoteBatch.Receipts)
+
+// ---- C07: a rejected block leaves no trace in the working state ------------------------------------------------------
+// Reset() is what the controller calls after a proposal or peer block was rejected (at ANY stage - also before the
+// state root was ever computed): afterwards the working store holds no uncommitted writes, the caches are dropped and
+// the slash tracker is a new empty one - unconditionally.
+//@ func (*StateMachine).Reset
+//@   ensures[storeclean] !pendingWrites(s.store)
+//@   ensures[trackers] s.slashTracker != nil && fresh(s.slashTracker) && s.cache.valParams == nil && s.cache.feeParams == nil && s.cache.liveValidators == nil
+
+// ---- C20 / C04: liveness fallback of the DEX ---------------------------------------------------------------------
+// Dropping a stale locked batch refunds every order and deposit of THAT batch from the holding pool: each refund moves
+// exactly its amount from the holding pool to its owner, nothing is minted or burned, and the holding pool loses
+// exactly the sum refunded (it also backs the operations queued in the NEXT batch, which stay escrowed).
+//@ func (*StateMachine).SetPoolPoints
+//@   trusted
+//@   modifies ghost(kvHas)
+//@ func (*StateMachine).HandleLivenessFallback$1
+//@   ensures[moves] isnil(e) ==> drift(s) == old(drift(s)) && supTotal(s) == old(supTotal(s)) && poolSum(s) == old(poolSum(s)) - amount
+//@   ensures[failsafe] !isnil(e) ==> supTotal(s) == old(supTotal(s))
+//@ func (*StateMachine).HandleLivenessFallback
+//@   loop 1 invariant[conserve] drift(s) == old(drift(s)) && supTotal(s) == old(supTotal(s))
+//@   loop 2 invariant[conserve] drift(s) == old(drift(s)) && supTotal(s) == old(supTotal(s))
+//@   ensures[conserve] isnil(err) ==> drift(s) == old(drift(s)) && supTotal(s) == old(supTotal(s))
